@@ -107,6 +107,61 @@ def ob_file(ctx, plen, quick=False):
     return verdict(ctx, props, witness=wit, sample=lambda m: wit(m))
 
 
+def ob_regenerate(ctx, plen):
+    """statistics are a function of the tree as it is *now*: generate, replace the diff (other newline convention, other
+    encoding, other counts), generate again -- the figures must be those of the new diff"""
+    from pydiffx.dom.objects import DiffX
+    d = DiffX()
+    f = d.add_change().add_file(meta={'path': 'x'})
+    counts = []
+    history = []
+    for round_ in range(2):
+        shape = ctx.pick('shape%d' % round_, SHAPES[:3])
+        nlk = ctx.pick('newline%d' % round_, ['unix', 'dos'])
+        enc = ctx.pick('diff_encoding%d' % round_, [None, 'utf-16'])
+        declare = ctx.choose(0, 1, 'declare-line-endings%d' % round_) if round_ == 0 else 0
+        text, ins, dele = build_diff(ctx, [shape], [0, 0], {'unix': '\n', 'dos': '\r\n'}[nlk], plen)
+        raw = lift(text).encode(enc or 'ascii')
+        f.diff = raw
+        if round_ == 0:
+            if enc:
+                f.diff_encoding = enc
+            if declare:
+                f.diff_line_endings = nlk
+        else:
+            # the user assigns new content and describes it: the encoding always, the line endings either explicitly
+            # ('declared') or not at all -- then only an option the *user* had set before is removed
+            mode = ctx.pick('second-options', ['undeclared', 'declared'])
+            if enc:
+                f.diff_encoding = enc
+            else:
+                f.diff_section.options.pop('encoding', None)
+            if mode == 'declared':
+                f.diff_line_endings = nlk
+            elif history[0]['declared']:
+                f.diff_section.options.pop('line_endings', None)
+        history.append({'diff': raw, 'encoding': enc, 'newline': nlk, 'declared': bool(declare) if round_ == 0 else (mode == 'declared')})
+        counts.append((ins, dele))
+        try:
+            d.generate_stats()
+        except PathTimeout:
+            raise
+        except Exception as e:
+            return viol('raised:%s' % type(e).__name__, {'kind': 'regenerate', 'history': [dict(h, diff=model_bytes(ctx.model(), h['diff'])) for h in history]})
+    wit = lambda m: {'kind': 'regenerate', 'history': [dict(h, diff=model_bytes(m, h['diff'])) for h in history],
+                     'ins': counts[1][0], 'del': counts[1][1]}
+    st = f.meta.get('stats') if 'stats' in f.meta else None
+    if st is None:
+        return viol('no-stats-for-text-diff', wit(ctx.model()))
+    ins, dele = counts[1]
+    top = d.meta.get('stats') if 'stats' in d.meta else {}
+    props = [('insertions', value_eq(st.get('insertions'), ins)), ('deletions', value_eq(st.get('deletions'), dele)),
+             ('lines changed', value_eq(st.get('lines changed'), ins + dele)),
+             ('top-level-insertions', value_eq(top.get('insertions'), ins)),
+             ('top-level-deletions', value_eq(top.get('deletions'), dele))]
+    return verdict(ctx, props, witness=wit, sample=lambda m: wit(m))
+
+
 def ob_untouched(ctx):
     """binary, empty, absent and unparsable diffs keep whatever statistics they had"""
     from pydiffx.dom.objects import DiffX
@@ -218,6 +273,10 @@ def obligations(tier):
               path_timeout=30, desc='real DiffXFileSection.generate_stats on diffs of 1-2 hunks (shape catalogue) with '
               'symbolic payloads and garbage lines; counts == ground truth; custom keys kept; second call changes nothing',
               bounds={'hunks': [1, 2], 'payload_len': 1 if quick else 2, 'garbage_len': [0, 2]})]
+    obs.append(Ob('regenerate', ob_regenerate, dict(plen=1), must_reach=['DiffXFileSection.generate_stats'], path_timeout=30,
+                  desc='generate, replace the diff by one with another newline convention / encoding / counts (line endings '
+                       'declared or not), generate again: figures of file and top level are those of the new diff',
+                  bounds={'rounds': 2, 'shapes': 3, 'payload_len': 1}))
     obs.append(Ob('untouched', ob_untouched, {}, must_reach=['DiffXFileSection.generate_stats'],
                   desc='binary / absent / unparsable diffs keep their statistics', bounds={'payload_len': [1, 2]}))
     C, F = (2, 2) if quick else (3, 3)
@@ -279,6 +338,36 @@ def replay(ob, label, w):
     except Exception as e:
         return {'violated': True, 'signature': 'stats:raised:%s' % type(e).__name__, 'detail': str(e)}
     st = dict(f.meta['stats']) if 'stats' in f.meta else None
+    if w['kind'] == 'regenerate':
+        from pydiffx.dom.objects import DiffX
+        d = DiffX()
+        f = d.add_change().add_file(meta={'path': 'x'})
+        h0, h1 = w['history']
+        f.diff = h0['diff']
+        if h0['encoding']:
+            f.diff_encoding = h0['encoding']
+        if h0['declared']:
+            f.diff_line_endings = h0['newline']
+        try:
+            d.generate_stats()
+            f.diff = h1['diff']
+            if h1['encoding']:
+                f.diff_encoding = h1['encoding']
+            else:
+                f.diff_section.options.pop('encoding', None)
+            if h1['declared']:
+                f.diff_line_endings = h1['newline']
+            elif h0['declared']:
+                f.diff_section.options.pop('line_endings', None)
+            d.generate_stats()
+        except Exception as e:
+            return {'violated': True, 'signature': 'stats:raised:%s' % type(e).__name__, 'detail': repr(w)[:400]}
+        st = dict(f.meta.get('stats', {}))
+        top = dict(d.meta.get('stats', {}))
+        exp = {'insertions': w['ins'], 'deletions': w['del'], 'lines changed': w['ins'] + w['del']}
+        bad = {k: (st.get(k), v) for k, v in exp.items() if st.get(k) != v}
+        bad.update({'top ' + k: (top.get(k), exp[k]) for k in ('insertions', 'deletions') if top.get(k) != exp[k]})
+        return {'violated': bool(bad), 'signature': 'stats:stale-after-diff-replaced', 'detail': 'after replacing the diff: %r (got, expected); history %r' % (bad, w['history'])}
     if w['kind'] == 'untouched':
         bad = st != w.get('pre')
         return {'violated': bad, 'signature': 'stats:touched-unanalysable-diff', 'detail': '%s: %r' % (w['case'], st)}
